@@ -36,8 +36,38 @@ def gen_group_case(rng, thorough):
     return dict(hier=hier, nhooks=k, ops=ops, cmp_trace=True)
 
 
+def gen_reentry_case(rng, thorough):
+    """a failure passes through a RE-ENTERED invocation of an implementation while the outer invocation of the same implementation is
+    still running and goes on reading: the outer invocation's cycle flag must survive the failure
+        a := if cycle: <fails> else: try(read b, (read c) + 1)      b := read a      c := try(read a, 77)
+    (hook f has no implementation: reading it is the failure)"""
+    hier = rng.choice([[([], [])], [([], []), ([0], [])]])
+    perm = list(range(4))
+    rng.shuffle(perm)
+    a, b, c, f = perm
+    ops = [('newobj', 0, len(hier) - 1)]
+    fail = rng.choice([('read', 'self', f), ('add', ('read', 'self', f), ('const', ('int', 1))), ('seq', ('const', ('int', 3)), ('read', 'self', f))])
+    extra = rng.randint(0, 3)
+    second = ('add', ('read', 'self', c), ('const', ('int', 1)))
+    for _ in range(extra):          # several reads after the caught failure
+        second = ('add', ('read', 'self', c), second)
+    progs = {a: ('ifcycle', fail, ('try', ('read', 'self', b), second)),
+             b: rng.choice([('read', 'self', a), ('add', ('read', 'self', a), ('const', ('int', 2)))]),
+             c: ('try', ('read', 'self', a), ('const', ('int', 77)))}
+    nid = 0
+    for hk in rng.sample([a, b, c], 3):
+        ops.append(('register', nid, dict(owner=rng.randrange(len(hier)), hook=hk, tier=1, wrapper=False, guarded=False, post=None, prog=progs[hk])))
+        nid += 1
+    for _ in range(rng.randint(2, 6)):
+        ops.append(('read', 0, rng.choice([a, a, b, c, f])))
+    return dict(hier=hier, nhooks=4, ops=ops, cmp_trace=True)
+
+
 def gen_case(rng, thorough):
-    if rng.random() < 0.3:
+    r0 = rng.random()
+    if r0 < 0.12:
+        return gen_reentry_case(rng, thorough)
+    if r0 < 0.4:
         return gen_group_case(rng, thorough)
     nhooks = rng.randint(3, 8)
     hier = rng.choice([[([], [])], [([], []), ([0], [])]])
